@@ -1484,8 +1484,12 @@ class SVG:
         # pruning may orphan gradients (their only user was invisible) and leave groups
         # with fewer than two children; flattening those pushes their opacity down, and
         # the rounded product may in turn make a shape invisible: repeat until stable
+        def census():
+            # a round that flattens a group can change opacities without removing a shape
+            return len(self.shapes()), len(self.xpath("//svg:g"))
+
         while True:
-            num_shapes = len(self.shapes())
+            before = census()
             self.remove_unpainted_shapes(inplace=True)
             self._remove_orphaned_gradients()
             self.elements = None
@@ -1495,7 +1499,7 @@ class SVG:
             # opacities pushed down from flattened groups need rounding (and the
             # canonical attribute order of a flushed shape) too
             self.round_floats(ndigits, inplace=True)
-            if len(self.shapes()) == num_shapes:
+            if census() == before:
                 break
 
     @staticmethod
